@@ -31,6 +31,13 @@ def gen_case(rng):
     frac = rng.choice([0.0, 0.0, 0.25, -0.25, 0.5, 0.4921875, -0.4921875])
     D = rng.choice([0.0, 0.0, 0.5, -0.5, 1.0, -1.0, 1.5, -2.5, 4.0, -4.0, 0.125, -0.0625, 0.3125])
     wch = rng.choice([0.0625, 0.25, 0.375, 0.5, 0.75, 1.0, 1.5, 2.5, 10.0])
+    if rng.random() < 0.08:
+        # a start well outside the band and a sweep longer than the band is wide, drifting in: the helper's box is measured from the start
+        # frequency, not from the band
+        F = rng.randint(8, 12); T = rng.choice([6, 8]); fch1 = fmin if asc else fmin + (F - 1) * df
+        D = rng.choice([4.0, -4.0, 2.5, -2.5, 3.0, -3.0])
+        m = rng.randint(3, 9)
+        k = -m if D > 0 else F - 1 + m
     c = dict(T=T, F=F, df=df, dt=dt, fch1=fch1, ascending=asc, f_start=fmin + (k + frac) * df, drift=D * df / dt, level=float(rng.randint(1, 5)),
              width=wch * df, ptype=rng.choice(["box", "box", "sinc2", "sinc2", "gaussian", "lorentzian", "voigt"]), smear=rng.random() < 0.5)
     c["mirror_ok"] = (frac == 0.0 and 0 <= k < F)
@@ -41,7 +48,7 @@ def run(ctx):
     rng = ctx.rng
     quick = ctx.tier == "quick"
     ctx.rule = ("frames 1-6 x 8-40 on an exact grid, both orientations; start frequency on / a quarter / almost half a channel off a channel centre, "
-                "inside, at the edge of and outside the band; drift 0, +-1/16 .. +-4 channels per step; width 1/16 .. 10 channels; box, sinc2, gaussian, "
+                "inside, at the edge of and outside the band (8 %: far outside, sweeping through the whole band); drift 0, +-1/16 .. +-4 channels per step; width 1/16 .. 10 channels; box, sinc2, gaussian, "
                 "lorentzian, voigt; smearing on/off; non-trivial = the general signal is non-zero somewhere; distinct = distinct case")
     ctx.assumptions = ["compact profiles (box, truncated sinc^2) are compared everywhere, tailed ones inside the FWHM of each row (and 'general value or zero' elsewhere)",
                        "mirror symmetry is checked only for starts on a channel centre inside the band"]
